@@ -68,6 +68,24 @@ OPS['readjs'] = async (pol, enc, hdr, modi, d, comment, pieces_txt) => {
     return await read_result(make_stream(buffers), null, enc, pol, hdr, modi, dec_str(d), comment == '~' ? null : dec_str(comment));
 };
 
+OPS['readjsbytes'] = async (pol, hdr, modi, d, comment, pieces_txt) => OPS['readjs'](pol, 'utf-8', hdr, modi, d, comment, pieces_txt);
+
+// the streaming decoder exactly as rbql_csv.js uses it: decode(chunk, {stream: true}) per chunk, flush at the end
+OPS['utf8dec'] = async (chunks_txt) => {
+    const util = require('util');
+    const decoder = new util.TextDecoder('utf-8', {fatal: true, ignoreBOM: true});
+    const buffers = dec_list(chunks_txt).map(p => Buffer.from(p.split('').map(c => c.charCodeAt(0))));
+    let pieces = [];
+    try {
+        for (const b of buffers) pieces.push(decoder.decode(b, {stream: true}));
+        const tail = decoder.decode();
+        if (tail.length) pieces.push(tail);
+    } catch (e) {
+        return 'err';
+    }
+    return 'ok ' + enc_list(pieces);
+};
+
 OPS['readjsbulk'] = async (pol, enc, hdr, modi, d, comment, text) => {
     const p = tmpfile('bulk.csv');
     fs.writeFileSync(p, Buffer.from(dec_str(text), enc == 'utf-8' ? 'utf-8' : 'binary'));
